@@ -19,7 +19,7 @@ def run(ctx):
             from rules import libimpls as L
             res.append(L.units_rule(c, "C05", rule="C05.R16"))
         if fs == "default":
-            res.append(MR.writer_reader_rule(ctx.syn, "C05"))
+            res.append(MR.writer_reader_rule(ctx.syn, "C05", crate=c))
             res.append(T.docs_separator_rule(ctx.syn, c, "C05", rule="C05.R9"))
         for r in res:
             if fs != "default":
